@@ -153,6 +153,7 @@ func runC05(c *vh.Ctx) {
 		}
 	}
 	runWarmReconnects(c)
+	runGateReconnects(c)
 }
 
 func reconnectCase(c *vh.Ctx, st *stratum, i int) {
